@@ -31,8 +31,12 @@ def main():
             parts = 4 if quick else 8
             for is_set in (True, False):
                 for p in range(parts):
+                    # the exception raised inside the comparison: a plain Exception subclass, or (every other job) a
+                    # TypeError - what comparing unrelated types raises, and what lookups answer "not there" to when
+                    # it comes from a key *conversion*
                     plan.append(dict(impl=impl, is_set=is_set, leaf=lf, internal=it, dump=fn, events=evfn,
-                                     indices=sorted(sel[p::parts]), pure=(impl == 'py'), partb_cap=25 if quick else 60))
+                                     indices=sorted(sel[p::parts]), pure=(impl == 'py'), partb_cap=25 if quick else 60,
+                                     exc='TypeError' if p % 2 else 'Exception'))
     results = jobs.run_jobs('harness.workers.fault_worker', plan, pure=True)
     for job, res, err in results:
         ident = dict(impl=job['impl'], is_set=job['is_set'], sizes=[job['leaf'], job['internal']])
@@ -43,9 +47,9 @@ def main():
             ck.bump(k, v)
         ck.add_traces(res['counts']['faults'] + res['counts']['partb_faults'] + res['counts']['calls'])
         for mm in res['mismatches']:
-            ck.violation('OO %s %s sizes=%s %s(k=%s) failing comparison %s of %s: %s' % (
+            ck.violation('OO %s %s sizes=%s %s(k=%s) failing comparison %s of %s (raising %s): %s' % (
                 mm['impl'], 'set' if mm['is_set'] else 'map', mm['sizes'], mm['op'], mm.get('k'), mm.get('fail_at'),
-                mm.get('comparisons'), mm['kind']), mm)
+                mm.get('comparisons'), mm.get('exc'), mm['kind']), mm)
     if plan:
         ck.sample(dict(kind='fault job', job={k: v for k, v in plan[0].items() if k not in ('indices',)}, shapes=len(plan[0]['indices'])))
     ck.assumptions += ['object keys of one instrumented class; the fault is an exception raised inside __lt__/__eq__ (or the '
